@@ -6,3 +6,8 @@
 (define-fun-rec pow256 ((n Int)) Int (ite (<= n 0) 1 (* 256 (pow256 (- n 1)))))
 ; spec pow2n (Int) Int
 (define-fun-rec pow2n ((n Int)) Int (ite (<= n 0) 1 (* 2 (pow2n (- n 1)))))
+; bit length of a non-negative integer (0 for 0); kept abstract, with its defining bounds
+; spec bitlen (Int) Int
+(declare-fun bitlen (Int) Int)
+(assert (= (bitlen 0) 0))
+(assert (forall ((x Int)) (! (=> (> x 0) (and (>= (bitlen x) 1) (<= (pow2n (- (bitlen x) 1)) x) (< x (pow2n (bitlen x))))) :pattern ((bitlen x)))))
